@@ -72,6 +72,10 @@ def write_tree(base, entries):
         p = os.path.join(base, rel)
         if content is None:
             os.makedirs(p, exist_ok=True)
+        elif isinstance(content, str) and content.startswith("LINK:"):
+            os.makedirs(os.path.dirname(p), exist_ok=True)
+            if not os.path.lexists(p):
+                os.symlink(content[5:], p)
         else:
             os.makedirs(os.path.dirname(p), exist_ok=True)
             with open(p, "wb") as f:
